@@ -169,7 +169,7 @@ class Printer:
             # a comment directly above a definition becomes its doc comment; follow it by a
             # blank line half of the time so both shapes occur.
             self.lines.append(" " * (self.indent * depth) + "// " + self.rng.choice(
-                ["note", "TODO: revisit", "x = 1 // nested", "message Fake { }", "uint8 a = 1", "'quote' \"dq\""]))
+                ["note", "TODO: revisit", "x = 1 // nested", "message Fake { }", "uint8 a = 1", "'quote' \"dq\"", "path C:\\", "\"\"\" doc \\N{x}"]))
             if self.rng.random() < 0.5:
                 self.lines.append("")
 
